@@ -95,6 +95,39 @@ Section SpecProofs.
     - eexists. split; [reflexivity|]. constructor. reflexivity.
   Qed.
 
+  (* ex / ch: the x-height / the advance of "0" of the style's font, scaled by the font size *)
+  Lemma length_metric_spec v fso fs xh zw po q u :
+    v = VDim "" q u -> uses_metrics u = true ->
+    (exists s1 u1, env (DRatio false) = Ok (VDim s1 xh u1)) ->
+    (exists s1 u1, env (DRatio true) = Ok (VDim s1 zw u1)) ->
+    match fso with
+    | Some f => (0 <= f)%Q /\ fs = f
+    | None => exists sf uf, env (DOwn PFontSize) = Ok (VDim sf fs uf)
+    end ->
+    exists r, run_pure env (length_ exactQ v fso po) = Ok r /\
+              value_eq r (spec_font_metric_length fs xh zw (if po then U_Scalar else U_Px) v).
+  Proof.
+    intros -> Hm (sx & ux & Hx) (sz & uz & Hz) Hfs.
+    assert (Hout : forall x, as_pixels (VDim "" x U_Px) po = VDim "" x (if po then U_Scalar else U_Px)) by (destruct po; reflexivity).
+    assert (Hf : exists f, run_pure env (match fso with
+                                          | Some f => if Qlt_bool f 0 then own_fs else Ret f
+                                          | None => own_fs end) = Ok f /\ f = fs).
+    { destruct fso as [f|].
+      - destruct Hfs as [Hf0 ->]. assert (Qlt_bool f 0 = false) as ->.
+        { unfold Qlt_bool. apply negb_false_iff. apply Qle_bool_iff. exact Hf0. }
+        exists f. split; reflexivity.
+      - destruct Hfs as (sf & uf & Hf). exists fs. unfold own_fs. cbn. rewrite Hf. split; reflexivity. }
+    destruct Hf as (f & Ef & ->).
+    unfold uses_metrics in Hm. apply orb_prop in Hm.
+    destruct Hm as [E|E]; apply N.eqb_eq in E; subst u; unfold length_, spec_font_metric_length;
+      cbn [String.eqb orb negb N.eqb Pos.eqb U_Ex U_Ch U_Px U_Em U_Rem is_abs_unit is_font_rel_unit mem_N existsb
+           U_Pt U_Pc U_In U_Cm U_Mm U_Q];
+      (destruct (Qeq_bool q 0) eqn:Eq0;
+       [apply Qeq_bool_iff in Eq0; eexists; split; [reflexivity|]; rewrite Hout; constructor; rewrite Eq0; ring|]);
+      rewrite (run_pure_bind env _ _ fs Ef); cbn [run_pure]; rewrite ?Hx, ?Hz; cbn [dim_val pbind run_pure];
+      (eexists; split; [reflexivity|]); rewrite Hout; constructor; cbn; ring.
+  Qed.
+
   (* find in two tables that agree up to == *)
   Lemma find_gt_compat x : forall l l', Forall2 Qeq l l' ->
     match find (fun k => Qlt_bool x k) l, find (fun k => Qltb x k) l' with
@@ -240,6 +273,20 @@ Section More.
     apply value_eq_dim_inv in Hv. destruct Hv as (q' & -> & Hq). cbn. eexists. split; [reflexivity|]. constructor. exact Hq.
   Qed.
 
+  (* bleed: auto against the crop flag of the own `marks` *)
+  Lemma bleed_spec v crop cross (fs rfs : Q) s q u :
+    env (DOwn PMarks) = Ok (VMarks crop cross) ->
+    v = VDim s q u -> (s = "" \/ s = "auto")%string -> uses_metrics u = false -> u < 256 ->
+    (exists sr ur, env DRootFs = Ok (VDim sr rfs ur)) ->
+    (exists sf uf, env (DOwn PFontSize) = Ok (VDim sf fs uf)) ->
+    exists r, run_pure env (bleed exactQ v) = Ok r /\ value_eq r (spec_bleed crop fs rfs v).
+  Proof.
+    intros Hmk -> Hs Hm Hu Hr Hf. unfold bleed, spec_bleed.
+    destruct Hs as [->| ->]; cbn [String.eqb Ascii.eqb Bool.eqb].
+    - apply (length_spec env (VDim "" q u) None fs rfs false "" q u eq_refl (or_introl eq_refl) Hm Hu Hr Hf).
+    - cbn [run_pure]. rewrite Hmk. destruct crop; (eexists; split; [reflexivity|constructor; vm_compute; reflexivity]).
+  Qed.
+
   Lemma display_spec (isr : bool) v pb ps fl a b c :
     env DSpecPos = Ok (VBoolStr pb ps) -> env DSpecFloat = Ok (VStr fl) -> v = VDisplay a b c ->
     run_pure env (display isr v) =
@@ -304,8 +351,11 @@ Section ComputedSpecs.
     rewrite (defaulting_equations exactQ t WF n nd PFontSize En Ek eq_refl ltac:(discriminate)).
     unfold defaulted. rewrite Heff. unfold compute_value, compute.
     replace (computer_of PFontSize) with KFontSize by reflexivity.
-    assert (modelled KFontSize v = true) as -> by (subst v; cbn; now rewrite Hm).
-    apply (font_size_spec (ctx_env exactQ t n nd PFontSize) (is_root_node nd) v pfs rfs s q u Hv Hs Hm Hu); [| exact Hp0 |].
+    assert (modelled (has_metrics nd) KFontSize v = true) as ->
+      by (subst v; cbn [modelled]; unfold unit_ok; rewrite Hm; apply orb_true_r).
+    rewrite run_pure_resolve.
+    apply (font_size_spec (env_with (n_metrics nd) (ctx_env exactQ t n nd PFontSize)) (is_root_node nd) v pfs rfs s q u Hv Hs Hm Hu);
+      cbn [env_with]; [| exact Hp0 |].
     - unfold is_root_node, ctx_env, parent_value. cbn [pure_env]. unfold is_root_node.
       destruct (n_parent nd) as [j|]; [apply Hpar|apply Hpar].
     - unfold ctx_env. cbn [pure_env]. rewrite (cap_rootfs_cases n nd En).
@@ -328,7 +378,9 @@ Section ComputedSpecs.
     rewrite (defaulting_equations exactQ t WF n nd PFontWeight En Ek eq_refl ltac:(discriminate)).
     unfold defaulted. rewrite Heff. unfold compute_value, compute.
     replace (computer_of PFontWeight) with KFontWeight by reflexivity. cbn [modelled].
-    apply (font_weight_spec (ctx_env exactQ t n nd PFontWeight) (is_root_node nd) v pfw s i Hv); [|exact Hw].
+    rewrite run_pure_resolve.
+    apply (font_weight_spec (env_with (n_metrics nd) (ctx_env exactQ t n nd PFontWeight)) (is_root_node nd) v pfw s i Hv);
+      cbn [env_with]; [|exact Hw].
     unfold is_root_node, ctx_env, parent_value. cbn [pure_env]. unfold is_root_node.
     destruct (n_parent nd) as [j|]; exact Hpar.
   Qed.
@@ -384,12 +436,108 @@ Section ComputedSpecs.
     assert (Hpg : p <> PPage) by (intros ->; discriminate Hk).
     rewrite (defaulting_equations exactQ t WF n nd p En Ek Htd Hpg).
     unfold defaulted. rewrite Heff. unfold compute_value, compute. rewrite Hk.
-    assert (modelled KLength v = true) as -> by (subst v; cbn; now rewrite Hm).
-    subst v. cbn [dim_only pbind].
-    apply (length_spec (ctx_env exactQ t n nd p) (VDim s q u) None fs rfs false s q u eq_refl Hs Hm Hu).
+    assert (modelled (has_metrics nd) KLength v = true) as ->
+      by (subst v; cbn [modelled]; unfold unit_ok; rewrite Hm; apply orb_true_r).
+    subst v. cbn [dim_only pbind]. rewrite run_pure_resolve.
+    apply (length_spec (env_with (n_metrics nd) (ctx_env exactQ t n nd p)) (VDim s q u) None fs rfs false s q u eq_refl Hs Hm Hu);
+      cbn [env_with].
     - unfold ctx_env. cbn [pure_env]. rewrite (cap_rootfs_cases n nd En).
       destruct (n_parent nd) as [j|]; [exact Hrfs|]. subst rfs. eauto.
     - unfold ctx_env. cbn [pure_env]. unfold own_env. rewrite Hnb.
       replace (is_base PFontSize) with true by reflexivity. exact Hfs.
+  Qed.
+
+  (* lengths in ex / ch on the same properties: x-height / advance of "0" of the font the
+     element's style selects (recorded metrics), scaled by the element's own computed font
+     size -- whatever other elements, documents or units were computed before *)
+  Theorem length_metrics_computed n nd p v q u m (fs : Q) :
+    node_at t n = Some nd -> n_kind nd = KElem ->
+    computer_of p = KLength ->
+    effective nd p = Some (CExplicit v) ->
+    v = VDim "" q u -> uses_metrics u = true ->
+    n_metrics nd = Some m ->
+    (exists sf uf, comp n PFontSize = Ok (VDim sf fs uf)) ->
+    exists r, comp n p = Ok r /\ value_eq r (spec_font_metric_length fs (m_ex m) (m_ch m) U_Px v).
+  Proof.
+    intros En Ek Hk Heff Hv Hm Hmt Hfs.
+    assert (Hnb : is_base p = false).
+    { unfold is_base. rewrite Hk. destruct (N.eqb_spec p PFontSize) as [->|]; [discriminate Hk|reflexivity]. }
+    assert (Htd : is_text_decoration p = false).
+    { destruct (is_text_decoration p) eqn:E; [|reflexivity].
+      unfold is_text_decoration, PTextDecorationLine, PTextDecorationStyle in E.
+      assert (p = 111 \/ p = 112 \/ p = 113) as [->|[->| ->]] by lia; discriminate Hk. }
+    assert (Hpg : p <> PPage) by (intros ->; discriminate Hk).
+    rewrite (defaulting_equations exactQ t WF n nd p En Ek Htd Hpg).
+    unfold defaulted. rewrite Heff. unfold compute_value, compute. rewrite Hk.
+    assert (modelled (has_metrics nd) KLength v = true) as ->
+      by (subst v; cbn [modelled]; unfold unit_ok, has_metrics; rewrite Hmt; reflexivity).
+    subst v. cbn [dim_only pbind]. rewrite run_pure_resolve, Hmt.
+    apply (length_metric_spec (env_with (Some m) (ctx_env exactQ t n nd p)) (VDim "" q u) None fs (m_ex m) (m_ch m) false q u eq_refl Hm);
+      cbn [env_with ratio_value].
+    - do 2 eexists; reflexivity.
+    - do 2 eexists; reflexivity.
+    - unfold ctx_env. cbn [pure_env]. unfold own_env. rewrite Hnb.
+      replace (is_base PFontSize) with true by reflexivity. exact Hfs.
+  Qed.
+
+  (* bleed-*: with no winning declaration, `initial` or `auto`, the computed value is 6pt =
+     8px when the computed `marks` of the same page context has `crop`, else 0 *)
+  Theorem bleed_auto_computed n nd p crop cross :
+    node_at t n = Some nd -> n_kind nd = KElem ->
+    computer_of p = KBleed ->
+    (effective nd p = None \/ effective nd p = Some CInitial \/
+     effective nd p = Some (CExplicit (VDim "auto" 0 0))) ->
+    comp n PMarks = Ok (VMarks crop cross) ->
+    exists r, comp n p = Ok r /\ value_eq r (spec_bleed crop 0 0 (VDim "auto" 0 0)).
+  Proof.
+    intros En Ek Hk Heff Hmk.
+    assert (Hv : valid_prop p) by (apply computer_valid; congruence).
+    assert (Hnb : is_base p = false).
+    { unfold is_base. rewrite Hk. destruct (N.eqb_spec p PFontSize) as [->|]; [discriminate Hk|reflexivity]. }
+    assert (Htd : is_text_decoration p = false).
+    { destruct (is_text_decoration p) eqn:E; [|reflexivity].
+      unfold is_text_decoration, PTextDecorationLine, PTextDecorationStyle in E.
+      assert (p = 111 \/ p = 112 \/ p = 113) as [->|[->| ->]] by lia; discriminate Hk. }
+    assert (Hpg : p <> PPage) by (intros ->; discriminate Hk).
+    pose proof (forall_props (fun p => match computer_of p with
+                                       | KBleed => negb (inherited p) && initial_not_computed p &&
+                                                   match initial p with Some iv => value_eqb iv (VDim "auto" 0 0) | None => false end
+                                       | _ => true end) ltac:(vm_compute; reflexivity) p Hv) as Ht.
+    cbv beta in Ht. rewrite Hk in Ht. apply andb_prop in Ht. destruct Ht as [Ht Hini].
+    apply andb_prop in Ht. destruct Ht as [Hinh Hinc]. apply negb_true_iff in Hinh.
+    assert (Hcv : forall s0 q0 u0, value_eqb (VDim s0 q0 u0) (VDim "auto" 0 0) = true ->
+              exists r, compute_value exactQ t n nd p (VDim s0 q0 u0) = Ok r /\
+                        value_eq r (spec_bleed crop 0 0 (VDim "auto" 0 0))).
+    { intros s0 q0 u0 E. cbn [value_eqb] in E. apply andb_prop in E. destruct E as [E Eu].
+      apply andb_prop in E. destruct E as [Es _]. apply String.eqb_eq in Es. apply N.eqb_eq in Eu. subst s0 u0.
+      unfold compute_value, compute. rewrite Hk. cbn [modelled]. unfold unit_ok.
+      replace (uses_metrics 0) with false by reflexivity. rewrite orb_true_r.
+      rewrite run_pure_resolve. unfold bleed. cbn [String.eqb Ascii.eqb Bool.eqb run_pure env_with].
+      unfold ctx_env. cbn [pure_env]. unfold own_env. rewrite Hnb.
+      replace (is_base PMarks) with true by reflexivity. rewrite Hmk.
+      destruct crop; (eexists; split; [reflexivity|constructor; vm_compute; reflexivity]). }
+    rewrite (defaulting_equations exactQ t WF n nd p En Ek Htd Hpg). unfold defaulted.
+    assert (Hiv : exists r, initial_value exactQ t n nd p = Ok r /\ value_eq r (spec_bleed crop 0 0 (VDim "auto" 0 0))).
+    { unfold initial_value. destruct (initial p) as [iv|]; [|discriminate]. rewrite Hinc.
+      destruct iv; try discriminate. apply Hcv, Hini. }
+    destruct Heff as [->|[->| ->]].
+    - rewrite Hinh. exact Hiv.
+    - exact Hiv.
+    - apply Hcv. reflexivity.
+  Qed.
+
+  Corollary bleed_auto_computed_px n nd p crop cross :
+    node_at t n = Some nd -> n_kind nd = KElem ->
+    computer_of p = KBleed ->
+    (effective nd p = None \/ effective nd p = Some CInitial \/
+     effective nd p = Some (CExplicit (VDim "auto" 0 0))) ->
+    comp n PMarks = Ok (VMarks crop cross) ->
+    exists r, comp n p = Ok r /\ value_eq r (VDim "" (if crop then 8 else 0) U_Px).
+  Proof.
+    intros En Ek Hk He Hm.
+    destruct (bleed_auto_computed n nd p crop cross En Ek Hk He Hm) as (r & Er & Hr).
+    exists r. split; [exact Er|]. unfold spec_bleed in Hr. cbn [String.eqb Ascii.eqb Bool.eqb] in Hr.
+    apply value_eq_dim_inv in Hr. destruct Hr as (q' & -> & Hq). constructor. rewrite Hq.
+    destruct crop; vm_compute; reflexivity.
   Qed.
 End ComputedSpecs.
